@@ -248,7 +248,7 @@ pub const TAG_SIGMA: [&str; 13] = [
 pub fn run_c14(tier: &str) -> i32 {
     let rep = Report::new("C14", tier);
     let thorough = rep.thorough();
-    let (depth, line_len, file_len) = if thorough { (7, 5, 5) } else { (5, 4, 4) };
+    let (depth, line_len, file_len) = if thorough { (9, 5, 5) } else { (7, 4, 4) };
     rep.set("names", json!(NAMES));
     rep.set("contents", json!(CONTENTS));
     rep.set("bounds", json!(format!("BFS over the reference store to depth {depth} (operations create x7 names, store x6 contents, inject x all lines of <= {line_len} chars over {{a,b,-}} x LF/CRLF); whole files of <= {file_len} lines over a 13-line tag alphabet")));
